@@ -26,18 +26,24 @@ GENERIC = [Fraction(3, 4), Fraction(-2, 5), Fraction(5, 7), Fraction(-1, 3), Fra
 TAN_ROT3 = {"SO3": 0, "SE3": 3, "Galilei": 7, "SE_2_3": 6, "SE_1_3": 3, "SE_3_3": 9}
 
 
-def direction(g, variant=0, _state=None):
-    """rational tangent direction for group g: rotation triples of rational norm, generic rationals elsewhere"""
+# translation-like tangent coordinates (scaled so that they reach the property's 1e3 at the small-angle switch t ~ 1e-4)
+TRANSLATION = {"SE2": range(0, 2), "SE3": range(0, 3), "Galilei": range(0, 6), "SE_2_3": range(0, 6), "SE_1_3": range(0, 3), "SE_3_3": range(0, 9)}
+
+
+def direction(g, variant=0, _state=None, tscale=1):
+    """rational tangent direction for group g: rotation triples of rational norm, generic rationals elsewhere; translation-like
+    coordinates multiplied by `tscale`"""
     st = _state if _state is not None else {"rot": variant, "gen": variant}
     if g.members:
         out = []
         for m in g.members:
-            out += direction(m, variant, st)
+            out += direction(m, variant, st, tscale)
         return out
     base = g.key[:-1]
     out = []
     for i in range(g.dof):
-        out.append(GENERIC[st["gen"] % len(GENERIC)])
+        sc = tscale if (i in TRANSLATION.get(base, ()) or base.startswith("V")) else 1
+        out.append(GENERIC[st["gen"] % len(GENERIC)] * sc)
         st["gen"] += 1
     if base in TAN_ROT3:
         w = ROT3[st["rot"] % len(ROT3)]
@@ -159,6 +165,9 @@ def expected(nm, M1, M2, order):
     raise KeyError(nm)
 
 
+TSCALE = 10 ** 7
+
+
 def run(rep, tier, prop, names, tol, full_order=8, variants=1):
     rule = "T." + prop
     gs = [g for g in groups.catalogue("quick")]
@@ -175,7 +184,7 @@ def run(rep, tier, prop, names, tol, full_order=8, variants=1):
         (r1, c1), (r2, c2) = meta["shape"]
         hess = nm in ("d2rexp", "d2rinv")
         for variant in range(variants):
-            a0 = direction(g, variant)
+            a0 = direction(g, variant, tscale=TSCALE)
             b0 = direction(g, variant + 1)[::-1]
             inputs = {"a%d" % i: Series({1: a0[i]}, rays.N_IN) for i in range(g.dof)}
             if hess:
@@ -209,7 +218,8 @@ def run(rep, tier, prop, names, tol, full_order=8, variants=1):
                         M2 = rays.mat_from(path["stores"], 2, r2, c2)
                         L, R = expected(nm, M1, M2, full_order)
                     mm, known = rays.first_mismatch(L, R, full_order)
-                    results.append((mm, known, path))
+                    dev = rays.deviation_at(L, R, full_order, tstar) if (mm is not None and tstar > 0) else (0.0, None, 1.0)
+                    results.append((mm, known, path, dev))
             except poly.Narrowing as ex:
                 rep.instance(rule, g.ctype, inst, ok=False, sample={"witness": fname, "identity": IDENT[nm][1]})
                 rep.violation(Finding(rule, g.ctype, inst, "%s: a value is narrowed to a lower floating-point precision inside this double-precision "
@@ -219,7 +229,9 @@ def run(rep, tier, prop, names, tol, full_order=8, variants=1):
                 rep.broke("%s (%s): cannot abstract into the series domain: %s" % (fname, inst, ex))
                 continue
             full = [r for r in results if r[0] is None and r[1] >= min(full_order, 6)]
-            low = [r for r in results if r[0] is not None and (tstar == 0.0 or abs(float(r[0][3] - r[0][4])) * tstar ** r[0][2] > tol)]
+            # a path that does not reproduce the series exactly (polynomial branch): its deviation at the largest t that selects it, relative to the
+            # largest entry of the exact result there, must stay within the tolerance
+            low = [r for r in results if r[0] is not None and (tstar == 0.0 or r[3][0] > tol * max(r[3][2], 1e-300))]
             ok = bool(full) and not low
             rep.instance(rule, g.ctype, inst, ok=ok, sample={"witness": fname, "identity": IDENT[nm][1], "paths": len(results),
                                                              "direction": [str(x) for x in a0], "second_direction": [str(x) for x in b0] if hess else None,
@@ -227,14 +239,17 @@ def run(rep, tier, prop, names, tol, full_order=8, variants=1):
             if ok:
                 continue
             if low:
-                mm, known, path = low[0]
+                mm, known, path, dev = low[0]
             else:
-                mm, known, path = max(results, key=lambda r: (r[0][2] if r[0] else -1))
+                mm, known, path, dev = max(results, key=lambda r: (r[0][2] if r[0] else -1))
             conds = ", ".join("%s=%s" % c for c in path["conds"][:4]) or "straight-line"
             if mm is None:
                 msg = "no path is known to order %d (known to %d)" % (full_order, known)
             else:
                 msg = "entry (%d,%d): coefficient of t^%d is %s, the defining series has %s" % (mm[0], mm[1], mm[2], mm[3], mm[4])
+                if low:
+                    msg += "; at t = %.3g (translation-like coordinates of about %.3g) the result deviates by %.3g relative to its largest entry, tolerance %g" % (
+                        tstar, float(TSCALE) * tstar, dev[0] / max(dev[2], 1e-300), tol)
             rep.violation(Finding(rule, g.ctype, inst, "%s fails along a = t*(%s) on path [%s]: %s%s" % (
                 IDENT[nm][1], ", ".join(str(x) for x in a0), conds, msg,
                 "" if low else " (no path reproduces the defining series to order %d)" % full_order), None, None, detail={"witness": fname}))
